@@ -2,6 +2,9 @@
 package codegenmodel
 
 import (
+	"archive/zip"
+	"bytes"
+	"io"
 	"context"
 	"fmt"
 	"os"
@@ -302,13 +305,36 @@ type respInput struct {
 	Corrupt bool       `json:"corrupt"`
 }
 
+// snapshot maps every file below root to its content; the entries of a .zip / .jar archive appear as files below it
+// (a jar's manifest is not an entry a plugin produced).
 func snapshot(root string) map[string]string {
 	out := map[string]string{}
 	_ = filepath.Walk(root, func(p string, info os.FileInfo, err error) error {
 		if err == nil && info.Mode().IsRegular() {
 			d, _ := os.ReadFile(p)
 			rel, _ := filepath.Rel(root, p)
-			out[filepath.ToSlash(rel)] = string(d)
+			rel = filepath.ToSlash(rel)
+			if strings.HasSuffix(rel, ".zip") || strings.HasSuffix(rel, ".jar") {
+				zr, zerr := zip.NewReader(bytes.NewReader(d), int64(len(d)))
+				if zerr != nil {
+					out[rel] = "unreadable archive: " + zerr.Error()
+					return nil
+				}
+				for _, f := range zr.File {
+					if strings.HasPrefix(f.Name, "META-INF/") || strings.HasSuffix(f.Name, "/") {
+						continue
+					}
+					rc, _ := f.Open()
+					var content []byte
+					if rc != nil {
+						content, _ = io.ReadAll(rc)
+						rc.Close()
+					}
+					out[rel+"/"+f.Name] = string(content)
+				}
+				return nil
+			}
+			out[rel] = string(d)
 		}
 		return nil
 	})
@@ -360,7 +386,8 @@ func runResponses(in []byte) (*reg.Result, error) {
 				c := inp.Cases[i]
 				_ = os.RemoveAll(root)
 				base := filepath.Join(root, "outer", "wd")
-				_ = os.MkdirAll(base, 0o755)
+				// (the directory that is to hold an archive must exist; directories given as output are created)
+				_ = os.MkdirAll(filepath.Join(base, "gen"), 0o755)
 				_ = os.WriteFile(filepath.Join(root, "outer", "esc.txt"), []byte("sentinel"), 0o644)
 				_ = os.WriteFile(filepath.Join(root, "esc.txt"), []byte("sentinel"), 0o644)
 				before := snapshot(root)
